@@ -43,6 +43,7 @@ impl LabeledMv {
     pub fn polynomial(&self) -> (r: &MvPoly) ensures *r == self.polynomial { &self.polynomial }
     pub fn hiding_bound(&self) -> (r: Option<usize>) ensures r == self.hiding_bound { self.hiding_bound }
     #[verifier::external_body] pub fn degree(&self) -> (r: usize) ensures r == self.polynomial.deg() { unimplemented!() }     // Deref to the polynomial
+    #[verifier::external_body] pub fn is_zero(&self) -> (r: bool) ensures r ==> forall|x: Asg| #[trigger] mve(self.polynomial.terms@, x) == f_zero() { unimplemented!() }     // Deref to the polynomial (same contract as MvPoly::is_zero)
 }
 // CommitterKey: the term-indexed table powers_of_g (BTreeMap<Term, G1Affine>) is read through `get(term).unwrap()` only
 pub struct CommitterKey { pub powers_of_g: TermTable, pub gamma_g: G1Affine, pub powers_of_gamma_g: Vec<Vec<G1Affine>>, pub num_vars: usize, pub supported_degree: usize, pub max_degree: usize }
